@@ -255,8 +255,8 @@ def check(ctx):
         def ob(self, rule, key, ok, site="", detail="", nontrivial=True, undecided=False):
             if rule == "R13.1" and "dealloc_id" in key: return super().ob(rule, key, ok, site, detail, nontrivial, undecided)
             return ok
-    C13.check(OnlyDeallocId(ctx, "R16.6"))
-    ctx.floor("R16.6", 2)
+    util.guarded(ctx, C13.check, OnlyDeallocId(ctx, "R16.6"))
+    if not getattr(ctx, "deferred_infra", None): ctx.floor("R16.6", 2)
     # ------------------------------------------------------------------ R16.3 exact capacity
     C02 = importlib.import_module("props.C02")
     class OnlyGuards(util.PrefixedCtx):
